@@ -19,6 +19,7 @@ MC = 0o100
 DEFAULT = 0o4444
 RESERVED_MC = (0o100, 0o10, 0o1000)
 MASTER_TABLE = ((3, 0o3), (7, 0o13), (200, 0o1234), (255, 0o5))
+MASTER_TABLE_FULL = ((3, 0o3), (7, 0o1), (200, 0o2), (255, 0o5), (11, 0o4))
 
 T_NAMES = {128: "addr-response", 130: "ping", 131: "ext-data", 148: "frag-first", 149: "frag-more", 150: "frag-last",
            193: "net-ack", 194: "poll", 195: "addr-request", 196: "addr-lookup", 197: "addr-release", 198: "id-lookup"}
@@ -64,8 +65,11 @@ def roles(tier):
         out.append(("network-relay", lvl))
         if lvl:
             out.append(("mesh", lvl))
+            if tier != "quick" or lvl in (1, 3):
+                out.append(("mesh-relay", lvl))  # a connected mesh node (moved there from 0o4444) that also relays multicasts
     out.append(("mesh-unassigned", 4))
     out.append(("master", 0))
+    out.append(("master-full", 0))  # every level-1 address is leased: a direct request cannot be served
     out.append(("meshclass-node", 2))  # an RF24Mesh object that is not the master
     return out
 
@@ -84,17 +88,19 @@ def build(role, lvl, env):
         n, r = H.mk_node(w, a, cls=H.RF24Network)
         if role == "network-relay":
             n.multicast_relay = True
-    elif role == "master":
+    elif role in ("master", "master-full"):
         n, r = H.mk_node(w, 0, cls=H.RF24Mesh, node_id=0)
-        for k, x in MASTER_TABLE:
+        for k, x in (MASTER_TABLE if role == "master" else MASTER_TABLE_FULL):
             n.set_address(k, x)
     elif role == "meshclass-node":
         n, r = H.mk_node(w, 0, cls=H.RF24Mesh, node_id=9)
         n._begin(a)
     else:
         n, r = H.mk_node(w, 0, cls=H.RF24MeshNoMaster, node_id=9)
-        if role == "mesh":
+        if role in ("mesh", "mesh-relay"):
             n._begin(a)  # what renew_address() does once an address was granted
+            if role == "mesh-relay":
+                n.multicast_relay = True
     if env == "ack":
         w.phantom_ack = _always
     g = H.mk_ghost_tx(w)
@@ -394,6 +400,8 @@ def seq_alphabet(a, tier, seed):
         al.append(NW.pack_frame(org, child, 7, t, res, H.pattern(n, seed, t + 1)))
     for t, res, n in ((0, 0, 2), (194, 0, 0), (148, 2, 24), (150, 131, 3)):
         al.append(NW.pack_frame(DEFAULT if t == 194 else org, MC, 8, t, res, H.pattern(n, seed, t + 2)))
+    if a == 0:
+        al.append(NW.pack_frame(DEFAULT, 0, 6, 195, 9, b""))  # a direct address request (denied by a master whose level 1 is full)
     al.append(NW.pack_frame(org, dc["inv-5+digits"][0], 9, 1, 0, b"xy"))
     al.append(NW.pack_frame(0o20, a, 9, 1, 0, b"xy"))
     al.append(H.pattern(5, seed, 3))
@@ -524,7 +532,7 @@ def w_predicate(item, rep):
     rep.part("predicate", values=len(vals))
 
 
-SIDE_ROLES = ("network-relay", "meshclass-node")  # differ from network / mesh only in how frames for self / 0o100 are handled
+SIDE_ROLES = ("network-relay", "meshclass-node", "mesh-relay", "master-full")  # differ from network / mesh only in how frames for self / 0o100 are handled
 
 
 def items(tier, seed):
@@ -605,7 +613,7 @@ def run(tier, seed, rep, only=None):
         level="model_checking",
         exhaustive=True,
         rule="E-ENUM: for each of %d (role, level) nodes {RF24NetworkRoutingOnly, RF24Network, RF24Network with multicast_relay: levels 0-4; "
-             "connected RF24MeshNoMaster: levels 1-4; unassigned mesh node; RF24Mesh master with 4 leases; RF24Mesh object as ordinary node}: "
+             "connected RF24MeshNoMaster (also with multicast_relay): levels 1-4; unassigned mesh node; RF24Mesh master with 4 leases / with all five level-1 addresses leased; RF24Mesh object as ordinary node}: "
              "all 256 message types x message lengths %s x destination classes {self, child, descendant, parent side, 0o100, other reserved "
              "multicast, 0o4444, digit 0, digit 6/7, more than 4 digits, >12-bit} x origin classes {valid, 0o4444, invalid digit, more than 4 digits, "
              "self, 0o100} (%s), each transmitted by a ghost PTX into the node's pipe (level multicast address for 0o100 frames) of a "
